@@ -53,18 +53,67 @@ def handleMRS (j : Json) : Except String Json := do
         jList (fun s : Var × List Pred => Json.arr #[jVar s.1, jPredIds s.2]) d) m.descendants),
     ("reps", jExcept jScopeMap m.representatives)])
 
+def dErrTag : DErr → String
+  | .keyError => "KeyError"
+  | .assertionError => "AssertionError"
+  | .fuel => "fuel"
+
+def jDExcept {α} (f : α → Json) : Except DErr α → Json
+  | .ok a => jOk (f a)
+  | .error e => jErr (dErrTag e)
+
+def jNodeScopes (sc : List (Var × List Node)) : Json :=
+  jList (fun s : Var × List Node => Json.arr #[jVar s.1, jList (fun n : Node => jInt n.id) s.2]) sc
+
+/-- the scope map observed on the real `d.scopes()` (labels with node ids, in the real order) -/
+def ofObsScopes (d : DMRS) (j : Json) : Except String (List (Var × List Node)) := do
+  (← j.getArr?).toList.mapM (fun e => do
+    match (← e.getArr?).toList with
+    | [l, ids] =>
+      let ns ← (← ids.getArr?).toList.mapM (fun i => do
+        match d.node? (← i.getInt?) with
+        | some n => pure n
+        | none => throw "observed scope names a node that does not exist")
+      pure (← ofVar l, ns)
+    | _ => throw "bad observed scope")
+
 def handleDMRS (j : Json) : Except String Json := do
   let d ← ofDMRS (← j.getObjVal? "d")
-  pure (jExcept (fun r : Option Var × List (Var × List Node) =>
-    Json.mkObj [("top", jOpt jVar r.1),
-                ("scopes", jList (fun s : Var × List Node =>
-                   Json.arr #[jVar s.1, jList (fun n : Node => jInt n.id) s.2]) r.2)]) d.scopes)
+  let scopes := jExcept (fun r : Option Var × List (Var × List Node) =>
+    Json.mkObj [("top", jOpt jVar r.1), ("scopes", jNodeScopes r.2)]) d.scopes
+  if d.ids.eraseDups.length != d.ids.length then
+    return Json.mkObj [("unmodelled", Json.str "dup_ids")]
+  let jArgs (a : Except DErr (List (Int × List (Role × Int)))) : Json :=
+    jDExcept (fun m => jList (fun e : Int × List (Role × Int) =>
+      Json.arr #[jInt e.1, jList (fun a : Role × Int => Json.arr #[Json.str a.1, jInt a.2]) e.2]) m) a
+  let base := [("scopes", scopes), ("args_all", jArgs (d.arguments none)),
+               ("args_ns", jArgs (d.arguments (some "xeipu"))),
+               ("is_quantifier", jList (fun n : Node => Json.bool (d.isQuantifier n.id)) d.nodes)]
+  match j.getObjVal? "obs" with
+  | .ok (Json.arr a) =>
+    let sc ← ofObsScopes d (Json.arr a)
+    pure (Json.mkObj (base ++ [
+      ("scargs", jDExcept (fun m => jList (fun e : Int × List (Role × String × Option Var) =>
+          Json.arr #[jInt e.1, jList (fun a : Role × String × Option Var =>
+            Json.arr #[Json.str a.1, Json.str a.2.1, jOpt jVar a.2.2]) e.2]) m) (d.scopalArguments sc)),
+      ("descendants", jDExcept (fun m => jList (fun e : Int × List Node =>
+          Json.arr #[jInt e.1, jList (fun n : Node => jInt n.id) e.2]) m) (d.descendantsWith sc)),
+      ("reps", jDExcept jNodeScopes (d.representativesWith sc))]))
+  | _ => pure (Json.mkObj base)
+
+/-- `_normalize_top_and_links` as run by the DMRS constructor -/
+def handleNorm (j : Json) : Except String Json := do
+  let top ← fieldOpt (·.getInt?) j "top"
+  let links ← (← arrOrEmpty j "links").mapM ofLink
+  let r := normalizeTopAndLinks top links
+  pure (Json.mkObj [("top", jOpt jInt r.1), ("links", jList jLink r.2)])
 
 def handle (j : Json) : Except String Json := do
   let op ← getStr j "op"
   match op with
   | "mrs" => handleMRS j
   | "dmrs" => handleDMRS j
+  | "dmrs_norm" => handleNorm j
   | _ => throw s!"bad op {op}"
 
 end Verif.C07.Driver
